@@ -100,10 +100,11 @@ def rand_fill(rng, nbytes):
 LRS = [3, 3, 3, 4, 5, 6, 8, 9, 12, 15, 16, 20, 22]
 
 
-def rand_geo(rng, two=False, max_meta_bytes=64, dmap=ALL_MAPPED, edge=None):
+def rand_geo(rng, two=False, max_meta_bytes=64, dmap=ALL_MAPPED, edge=None, lb=None):
     """A random valid window. `edge`: None (interior), "lo" / "hi" (window touches the unmapped meta chunk)."""
     for _ in range(200):
-        lb = rng.randrange(0, 7)
+        lb_ = rng.randrange(0, 7)
+        lb = lb_ if lb is None else lb
         lr = rng.choice(LRS + [rng.randrange(3, 23)])
         W, R = 1 << lb, 1 << lr
         maxr = (64 * CHUNK) // R
